@@ -342,6 +342,38 @@ def read_only_queries(cinco, cfg, path=(), root=None):
     return problem
 
 
+def wrong_config_types(cinco, schema, cfg, path=()):
+    """Positions where a field declared with a configuration TYPE (make_type) - directly or as the
+    item type of a list - holds a configuration that is not an instance of that type."""
+    bad = []
+    for key, field in schema._fields.items():
+        if key not in cfg._data:
+            continue
+        value = cfg._data[key]
+        here = path + (key,)
+        if isinstance(field, cinco.core.ConfigTypeField):
+            if isinstance(value, cinco.Config):
+                if not isinstance(value, field.config_type):
+                    bad.append(".".join(here))
+                bad += wrong_config_types(cinco, field.config_type.__schema__, value, here)
+        elif isinstance(field, cinco.Schema):
+            if isinstance(value, cinco.Config):
+                bad += wrong_config_types(cinco, field, value, here)
+        elif isinstance(field, cinco.fields.ListField) and isinstance(value, list):
+            item = getattr(field, "field", None)
+            for i, v in enumerate(value):
+                if not isinstance(v, cinco.Config):
+                    continue
+                ctype = item.config_type if isinstance(item, cinco.core.ConfigTypeField) else item
+                if isinstance(ctype, type) and issubclass(ctype, cinco.core.ConfigType):
+                    if not isinstance(v, ctype):
+                        bad.append("%s[%d]" % (".".join(here), i))
+                    bad += wrong_config_types(cinco, ctype.__schema__, v, here + ("[%d]" % i,))
+                elif isinstance(item, cinco.Schema):
+                    bad += wrong_config_types(cinco, item, v, here + ("[%d]" % i,))
+    return bad
+
+
 def shared_containers(cinco, cfgs):
     """Positions (configuration name, path) that hold one and the same mutable list / typed
     dict object.  Every field of every configuration owns its container (an untyped dict field and
@@ -539,6 +571,10 @@ class World:
         if self.plaintexts is not None:
             KNOWN_PLAINTEXTS[:] = sorted(self.plaintexts)
         out = {}
+        for n, c in self.cfgs.items():
+            bad = wrong_config_types(self.cinco, self.schema, c) if c is not None else []
+            if bad:
+                return {"cfgs": {m: {"t": "wrong-config-type", "why": "%s of %s is not an instance of its declared configuration type" % (bad[0], n)} for m in self.cfgs}}
         shared = shared_containers(self.cinco, self.cfgs)
         if shared:
             a, b = shared[0]
